@@ -14,7 +14,7 @@ use adlt::plugins::factory::get_plugin;
 use adlt::plugins::plugin::{LcsRType, Plugin, PluginState};
 use adlt::plugins::plugins_process_msgs;
 use adlt::utils::eac_stats::EacStats;
-use std::collections::{BTreeMap, BTreeSet, HashMap};
+use std::collections::{BTreeMap, BTreeSet};
 use std::sync::mpsc::SendError;
 use std::sync::{Arc, Mutex, RwLock};
 use vharness::*;
